@@ -107,6 +107,15 @@ def _job(job):
     return out
 
 
+def _canon_job(name):
+    """canonical isomeric SMILES of what the name converts to ('' if nothing)"""
+    kind, smi = real.smiles_of(name)
+    if kind != "ok" or not smi:
+        return ""
+    m = chem.mol(smi)
+    return chem.Chem.MolToSmiles(m) if m is not None else ""
+
+
 def _bridge_job(job):
     """'<n>O<X>' / '<n>-O-<X>-': the position's oxygen is named explicitly, so it carries the group whatever preserve_elem says"""
     name, parent, pos, token = job
@@ -252,10 +261,40 @@ def run(rep, tier, driver):
         if o["canon"] != o["expected"]:
             rep.violation("input", {"iupac": name, "parent": sg, "position": pos, "token": tok, "shape": "explicit O bridge"}, {"result": o["canon"]},
                           {"result": o["expected"], "note": "the position's O carries the group"}, key="bridge:%s:%s" % (tok, name))
+    # position-less spellings ('GlcNAc' = 'Glc2NAc', 'GlcOMe' = 'Glc1OMe'): the default position is a property of the sugar (C2, for O-methyl
+    # C1; one further for 2-ketoses) and must not move when the skeleton is changed by a prefix on the same residue (anhydro bridges
+    # through C1 or elsewhere, deoxy, epimer, series prefix) or by other modifications
+    pl = []
+    pl_prefixes = ["", "1,6-Anhydro-", "3,6-Anhydro-", "D-", "L-", "6d", "4e", "3d", "1,4-Anhydro-"] if tier != "quick" else ["", "1,6-Anhydro-", "3,6-Anhydro-", "L-", "6d", "4e"]
+    pl_tokens = [("NAc", 2), ("NS", 2), ("NGc", 2), ("NBz", 2), ("NFo", 2), ("PEtn", 2), ("PCho", 2), ("OAc", 2), ("NBut", 2), ("OMe", 1), ("OBn", 2), ("NMe", 1)]
+    for sgr in (["Glc", "Man", "Gal"] if tier == "quick" else ["Glc", "Man", "Gal", "All", "Gul", "Tal", "Xyl", "Qui", "Fuc"]):
+        for pre in pl_prefixes:
+            for tok, pos in pl_tokens:
+                for extra in ("", "3Ac", "4S"):
+                    if pre and pre[0].isdigit() and str(pos) in pre.split("-")[0].replace("d", "").replace("e", "").split(","):
+                        continue        # the prefix uses the default position itself
+                    pl.append((pre + sgr + tok + extra, pre + sgr + str(pos) + tok + extra, sgr, pre, tok))
+    plres = pmap(_canon_job, [a for a, _, _, _, _ in pl] + [b for _, b, _, _, _ in pl], chunk=8)
+    half = len(pl)
+    for i, (a, b, sgr, pre, tok) in enumerate(pl):
+        ra, rb = plres[i], plres[half + i]
+        rep.count("position-less-vs-explicit")
+        ok = bool(ra) and bool(rb)
+        rep.case(canon=["positionless", a], nontrivial=ok)
+        if not ok:
+            rep.count("position-less-not-both-converted")
+            if bool(ra) != bool(rb):
+                rep.violation("input", {"iupac": a, "explicit": b}, {"position_less": ra, "explicit": rb},
+                              "both spellings convert, or neither", key="positionless-one-sided:%s" % a)
+            continue
+        if ra != rb:
+            rep.violation("input", {"iupac": a, "explicit": b, "prefix": pre, "token": tok}, {"position_less": ra, "explicit": rb},
+                          "the position-less spelling names the same molecule as the explicit one", key="positionless:%s" % a)
     # reactor Model in the loop: token dispatch / extract_bridge / set_fg of the first round, side_chains compared cell by cell
     import reactx
     extra_names = ["Glc2NAc", "GlcNAc", "Glc3OMe", "Gal6-O-Me-", "Glc2-N-Ac-", "Neu5Ac", "Neu5Gc", "NeuAc", "GlcA", "Glc-uronic", "GlcN", "FruN", "Glc3d", "Glc3e", "Glc2NS", "Glc6PCho",
-                   "Glc3CMe", "D-Glc", "L-Glc", "Glc2N3", "GlcNS6S", "Man6PEtn", "Gal3,4-Pyr", "Glc2NBz", "Glc6OAc", "Glc2,3,4Ac3", "1,6-Anhydro-Glc2Ac", "Glc-ol2Ac", "Glc7S", "GlcA2S"]
+                   "Glc3CMe", "D-Glc", "L-Glc", "Glc2N3", "GlcNS6S", "Man6PEtn", "Gal3,4-Pyr", "Glc2NBz", "Glc6OAc", "Glc2,3,4Ac3", "1,6-Anhydro-Glc2Ac", "Glc-ol2Ac", "Glc7S", "GlcA2S",
+                   "1,6-Anhydro-GlcNAc", "1,6-Anhydro-MurNAc", "1,6-Anhydro-GlcOMe", "3,6-Anhydro-GalNAc", "1,6-Anhydro-ManNAc3Ac", "FrufNAc", "Fruf1OMe", "NeuNAc", "KdoOMe", "Glc-olNAc"]
     reactx.run(rep, tier, driver, [j[0] for j in jobs][: (2500 if tier == "quick" else 60000)] + extra_names)
     # composition: several modifications, all orders
     mods_pool = ["Ac", "S", "P", "Bz", "F", "N3", "Gc", "Bn"]
